@@ -80,7 +80,7 @@ class Env(object):
         from . import rules_src as rs
         from . import rules_thompson as rth
         fns = {"R-THOMPSON": rth.check_rthompson, "R-CLASS": rth.check_rclassdispatch,
-               "R-PRIM": rth.check_rprim, "R-SUBSET": rth.check_rsubset,
+               "R-PRIM": rth.check_rprim, "R-SUBSET": rth.check_rsubset, "R-PROV": rth.check_rprov,
                "R-WL": rs.check_rwl, "R-EXH": rs.check_rexh, "R-DET": rs.check_rdet,
                "R-PARSE": rs.check_rparse, "R-SCOPE": rs.check_rscope, "R-CHK": rs.check_rchk,
                "R-FLOW": rs.check_rflow, "R-ORDER": rs.check_rorder, "R-OFFSET": rs.check_roffset,
